@@ -3,6 +3,7 @@ package c10
 import (
 	"context"
 	"fmt"
+	"runtime"
 	"strings"
 	"sync"
 	"sync/atomic"
@@ -30,11 +31,13 @@ type Ev struct {
 }
 
 type Case struct {
-	Body     string     // value throw sleep ignore panic
-	Hold     []string   // verifhook sites at which the implementation is parked until released
-	LongPark bool       `json:",omitempty"`
-	Threads  [][]string // ops: deref deref-short done? cancelled? cancel
-	Sched    []Ev
+	Body     string   // value throw sleep ignore panic
+	Hold     []string // verifhook sites at which the implementation is parked until released
+	LongPark bool     `json:",omitempty"`
+	// the creating evaluation cancels the future at once: (do (def fut (future …)) (future-cancel fut))
+	CancelAtCreation bool       `json:",omitempty"`
+	Threads          [][]string // ops: deref deref-short done? cancelled? cancel
+	Sched            []Ev
 }
 
 // gates: 0 = inside the body (ctx-aware), 1 = inside the body (ignores cancellation), 2.. = hook sites
@@ -106,6 +109,17 @@ func genCase(t *rapid.T) Case {
 		j := gen.Uniform(t, "shuffle", i+1)
 		c.Sched[i], c.Sched[j] = c.Sched[j], c.Sched[i]
 	}
+	c.CancelAtCreation = c.Body != "nested" && c.Body != "ignore" && c.Body != "panic" && gen.Chance(t, "cancelatcreation", 8)
+	if c.CancelAtCreation {
+		// the cancel is issued by the creating evaluation, before the schedule runs: nothing may park it
+		kept := c.Hold[:0]
+		for _, h := range c.Hold {
+			if h != "future:cancel-enter" {
+				kept = append(kept, h)
+			}
+		}
+		c.Hold = kept
+	}
 	if gen.Chance(t, "endcreator", 6) {
 		// the context of the evaluation that created the future ends (its host is done with it) at some point
 		pos := gen.Uniform(t, "endcreatorat", len(c.Sched)+1)
@@ -148,6 +162,9 @@ type gate struct {
 func describe(c Case) string {
 	var sb strings.Builder
 	sb.WriteString("body: " + bodyText(c.Body) + "\n")
+	if c.CancelAtCreation {
+		sb.WriteString("the creating evaluation cancels the future at once\n")
+	}
 	if len(c.Hold) > 0 {
 		sb.WriteString("implementation parked at: " + strings.Join(c.Hold, ", ") + "\n")
 	}
@@ -236,11 +253,31 @@ func check(c Case) pbt.Verdict {
 	creatorCtx, creatorCancel := context.WithCancel(context.Background())
 	defer creatorCancel()
 	creatorEnded := false
-	if r := box.ReadEval(creatorCtx, "(def fut (future "+bodyText(c.Body)+"))", e); r.Err != nil || r.Panicked {
+	createdCancelled := false
+	var creationCancel *rec
+	if c.CancelAtCreation {
+		// on one processor, so that the cancel comes before the future's goroutine has run at all
+		prev := runtime.GOMAXPROCS(1)
+		tc0 := time.Now().UnixNano()
+		r := box.ReadEval(creatorCtx, "(do (def fut (future "+bodyText(c.Body)+")) (future-cancel fut))", e)
+		tc1 := time.Now().UnixNano()
+		runtime.GOMAXPROCS(prev)
+		creationCancel = &rec{client: 98, op: "cancel", call: tc0, ret: tc1, b: r.Val == true}
+		if r.Err != nil || r.Panicked {
+			return pbt.Failf("harness:create", "creating the future failed: %v %v", r.Err, r.PanicVal)
+		}
+		if r.Val != true {
+			return pbt.Failf("cancel-false-on-running", "future-cancel, issued by the creating evaluation right after (future …), returned %v although the body cannot have completed (it parks at a gate nobody has released)\n%s", r.Val, describe(c))
+		}
+		createdCancelled = true
+	} else if r := box.ReadEval(creatorCtx, "(def fut (future "+bodyText(c.Body)+"))", e); r.Err != nil || r.Panicked {
 		return pbt.Failf("harness:create", "creating the future failed: %v %v", r.Err, r.PanicVal)
 	}
 	var mu sync.Mutex
 	hist := []rec{}
+	if creationCancel != nil {
+		hist = append(hist, *creationCancel) // the first cancel of this future's life
+	}
 	exec := func(client int, op string) string {
 		src := map[string]string{"deref": "@fut", "deref-short": "@fut", "deref-cancelled": "@fut", "done?": "(future-done? fut)", "cancelled?": "(future-cancelled? fut)", "cancel": "(future-cancel fut)"}[op]
 		ctx, cancel := context.WithTimeout(context.Background(), 20*time.Second)
@@ -456,6 +493,20 @@ func check(c Case) pbt.Verdict {
 		if r.ctxEnd != 0 && r.ret > r.ctxEnd && !derefWokenHeld {
 			if late := time.Duration(r.ret - r.ctxEnd); late > 250*time.Millisecond {
 				return fail("hang:deref-outlives-its-context", "a %s returned %v after its caller's own context had ended", r.op, late)
+			}
+		}
+	}
+	if createdCancelled {
+		cancelIssued = true
+		// the body's context was cancelled before the body could pass its gate: it cannot complete normally
+		for _, o := range outcomes {
+			if o.err == "" {
+				return fail("body-context-not-cancelled", "future-cancel returned true right after creation, yet a deref returned the value %s: the body's context was never cancelled", val.Canon(o.v))
+			}
+		}
+		for _, r := range hist {
+			if r.op == "cancelled?" && !r.b {
+				return fail("cancelled-false-after-cancel", "future-cancel returned true right after creation but a later future-cancelled? is false")
 			}
 		}
 	}
